@@ -47,6 +47,9 @@ var registry = map[string]*Prop{}
 // RacePass is set by the instrumented build: runs the free-running bodies of C18 (used by the -race binary).
 var RacePass func(reps int) int
 
+// SelfTest validates the reference model against the GDA vector files of the given directory.
+var SelfTest func(dir string) int
+
 // Register adds a property to the registry.
 func Register(p *Prop) { registry[p.ID] = p }
 
